@@ -11,7 +11,8 @@ RULE = ("random Entry trees (depth <= 4, fan-out <= 4, names from a small pool w
         "find, [] on Entry, Result and a ConfigComponent wrapper; oracle: identity-list equality with a naive matcher over "
         "the same nodes (document order; for deep multi-level queries equality as duplicate-free sets, order differences "
         "counted); every generated Boolean is also evaluated on every name and attribute value both ways (test vs "
-        "to_pyfunc); one evaluation = one query on one tree; non-trivial = the tree has >= 4 nodes and the query matches "
+        "to_pyfunc); in 40 % of the cases equal sub-expressions of all queries are ONE shared predicate object and bases a&b / a|b "
+        "are extended in several queries; one evaluation = one query on one tree; non-trivial = the tree has >= 4 nodes and the query matches "
         "some but not all candidates; distinct by hash of (tree, query)")
 ASSUMPTIONS = [
     "only trees whose parent links are set are queried (how every parser builds them)",
